@@ -338,6 +338,10 @@ func contract_ConsumeTag(b []byte) (num Number, typ Type, n int) {
 	ensures(imp(n < 0, num == 0 && typ == 0))
 	ensures(n == errCodeTruncated || n == errCodeOverflow || n == errCodeFieldNumber || (1 <= n && n <= 10 && n <= len(b)))
 	ensures(imp(n > 0, specVlen(uint64(num)*8+uint64(typ)) <= n && b[specVlen(uint64(num)*8+uint64(typ))-1]&0x7f != 0))
+	// the field number is the varint's upper bits without truncation
+	ensures(imp(n > 0, uint64(num) == specVarintVal(b, n)>>3))
+	// summary for callers that keep the varint spec abstract: a one-byte tag decodes by itself
+	ensures(imp(len(b) >= 1 && 8 <= b[0] && b[0] < 0x80, n == 1 && num == Number(b[0]>>3) && typ == Type(b[0]&7)))
 	return
 }
 
